@@ -137,6 +137,13 @@ class Context(interfaces.RequestProvider):
         self.client_credentials = client_credentials or CredentialsMap()
         self.server_credentials = server_credentials or CredentialsMap()
 
+        # Set when shutdown begins; requests find no interface any more then
+        self._shutting_down = False
+        # Tasks that are in find_remote_and_interface (which can take its
+        # time, eg. in name resolution); shutdown ends their wait
+        self._finding_remote: set[asyncio.Task] = set()
+        self._shutdown_cancellation = object()
+
     #
     # convenience methods for class instantiation
     #
@@ -513,6 +520,14 @@ class Context(interfaces.RequestProvider):
 
         self.log.debug("Shutting down context")
 
+        # Requests that have not got as far as an interface (they may be
+        # waiting for their destination's name to be resolved) are not known
+        # to any of the interfaces shut down below; they are failed here, as
+        # are those that come later.
+        self._shutting_down = True
+        for task in list(self._finding_remote):
+            task.cancel(self._shutdown_cancellation)
+
         done, pending = await asyncio.wait(
             [
                 asyncio.create_task(
@@ -543,13 +558,27 @@ class Context(interfaces.RequestProvider):
     async def find_remote_and_interface(self, message):
         if message.remote is None:
             raise error.MissingRemoteError()
-        for ri in self.request_interfaces:
-            if await ri.recognize_remote(message):
-                return ri
-        for ri in self.request_interfaces:
-            if remote := await ri.determine_remote(message):
-                message.remote = remote
-                return ri
+        if self._shutting_down:
+            raise error.LibraryShutdown()
+        task = asyncio.current_task()
+        self._finding_remote.add(task)
+        try:
+            for ri in self.request_interfaces:
+                if await ri.recognize_remote(message):
+                    return ri
+            for ri in self.request_interfaces:
+                if remote := await ri.determine_remote(message):
+                    message.remote = remote
+                    return ri
+        except asyncio.CancelledError as e:
+            if e.args and e.args[0] is self._shutdown_cancellation:
+                # It is the search that was ended by the shutdown, not the
+                # task that runs it
+                task.uncancel()
+                raise error.LibraryShutdown() from None
+            raise
+        finally:
+            self._finding_remote.discard(task)
         raise error.NoRequestInterface()
 
     def request(self, request_message, handle_blockwise=True):
